@@ -180,6 +180,25 @@ pub fn replay_item(out: &mut Out, bv: &Value, rng: &mut Rng, n: usize) {
                 if func == "Pow" {
                     let bases = ["0.5", "0.3", "0.1", "0.999", "2", "1.5", "10", "0.25", "3"];
                     let exps = [-92.0f64, -50.0, -28.0, -10.0, -3.0, -1.0, 0.0, 1.0, 3.0, 10.0, 30.0, 64.0, 92.0, 0.5, -0.5, 2.5, -2.5];
+                    // negative bases: whole exponents of either sign and parity (the sign of the result is the parity's); for eval_complex every exponent
+                    for b in ["2", "0.5", "3", "10"] {
+                        for x in exps {
+                            if e != "cpx" && x.fract() != 0.0 { continue; }
+                            if e == "i64" && b.contains('.') { continue; }
+                            for ph in phs_of(e, x) {
+                                let mut asg = Asg::default();
+                                asg.fns.insert(1, func.to_string());
+                                asg.lits.insert(4, (b.to_string(), false));
+                                asg.lits.insert(3, (b.to_string(), false));
+                                let t = T::Call("f2".into(), 1, vec![T::Neg(Box::new(T::Num(4))), T::Ans(6)]);
+                                let exp = expected(e, &t, &asg, &ph);
+                                checked_call(out, e, &format!("{}(-{},@)", spell, b), &ph, Some(&exp), json!({"v": "accept"}), true, &ctx);
+                                let t = T::Bin("pow".into(), Box::new(T::Grp("lp".into(), Box::new(T::Neg(Box::new(T::Num(3)))))), Box::new(T::Ans(6)));
+                                let exp = expected(e, &t, &asg, &ph);
+                                checked_call(out, e, &format!("(-{})^@", b), &ph, Some(&exp), json!({"v": "accept"}), true, &ctx);
+                            }
+                        }
+                    }
                     for b in bases {
                         for x in exps {
                             if e == "i64" && (x.fract() != 0.0 || b.contains('.')) { continue; }
